@@ -688,3 +688,72 @@ func PassFrom(b *ssa.BasicBlock, isA, isB func(ssa.Instruction) bool) bool {
 	}
 	return passBetween(first, isA, isB)
 }
+
+// PassBetween is passBetween for rule code outside the package.
+func PassBetween(from ssa.Instruction, isA, isB func(ssa.Instruction) bool) bool {
+	return passBetween(from, isA, isB)
+}
+
+// ScopedInsertions checks that a visited set is used as the stack of the resolutions in progress: every insertion
+// S.Add(k) / S[k] = … into a set that fn received as a parameter is undone before fn returns (a deferred delete of the
+// same key registered on every path from the insertion to a return, or a direct delete on each of these paths).
+// Otherwise the set remembers every name ever resolved, and a second, non-cyclic use of a name is taken for a cycle.
+func ScopedInsertions(fn *ssa.Function) (ok bool, why string, n int) {
+	isParamSet := func(v ssa.Value) bool {
+		v = ResolveLoad(v)
+		if ct, isCT := v.(*ssa.ChangeType); isCT {
+			v = ResolveLoad(ct.X)
+		}
+		_, isPar := v.(*ssa.Parameter)
+		return isPar
+	}
+	type ins struct {
+		at  ssa.Instruction
+		set ssa.Value
+		key ssa.Value
+	}
+	var inserts []ins
+	Instrs(fn, func(in ssa.Instruction) {
+		switch x := in.(type) {
+		case *ssa.Call:
+			if callee := x.Call.StaticCallee(); callee != nil && callee.Name() == "Add" && len(x.Call.Args) == 2 && isParamSet(x.Call.Args[0]) {
+				if _, isMap := x.Call.Args[0].Type().Underlying().(*types.Map); isMap {
+					inserts = append(inserts, ins{in, x.Call.Args[0], x.Call.Args[1]})
+				}
+			}
+		case *ssa.MapUpdate:
+			if isParamSet(x.Map) {
+				inserts = append(inserts, ins{in, x.Map, x.Key})
+			}
+		}
+	})
+	if len(inserts) == 0 {
+		return false, "no insertion into a visited set received as a parameter", 0
+	}
+	for _, i := range inserts {
+		isDel := func(in ssa.Instruction) bool {
+			var cc *ssa.CallCommon
+			switch x := in.(type) {
+			case *ssa.Call:
+				cc = &x.Call
+			case *ssa.Defer:
+				cc = &x.Call
+			default:
+				return false
+			}
+			bi, isB := cc.Value.(*ssa.Builtin)
+			if !isB || bi.Name() != "delete" || len(cc.Args) != 2 {
+				return false
+			}
+			return sameSet(cc.Args[0], i.set) && (cc.Args[1] == i.key || sameValue(cc.Args[1], i.key) || ResolveLoad(cc.Args[1]) == ResolveLoad(i.key))
+		}
+		isRet := func(in ssa.Instruction) bool {
+			_, r := in.(*ssa.Return)
+			return r
+		}
+		if !passBetween(i.at, isDel, isRet) {
+			return false, "a name inserted into the set of resolutions in progress is still in it when the function returns on some path (no deferred or direct delete of the same key)", len(inserts)
+		}
+	}
+	return true, fmt.Sprintf("%d insertion(s), each undone before the function returns", len(inserts)), len(inserts)
+}
